@@ -1052,3 +1052,16 @@ def calls_in_lines(fn, span):
 
 def stmts_in_lines(fn, span):
     return [(i, j, dst, rv, line) for i, j, dst, rv, line in fn.stmts() if span[0] <= line <= span[2]]
+
+
+def ok_value_blocks(fn):
+    """blocks that construct the function's success value: `Ok(..)`/`Some(..)` aggregates whose destination has the
+    function's return type (local 0, or async_trait's `__ret` local inside the coroutine body)"""
+    tys = {fn.local_ty(0)}
+    for l in fn.locals_named("__ret"):
+        tys.add(fn.local_ty(l))
+    out = []
+    for i, j, dst, rv, line in fn.stmts():
+        if rv[0] == "agg" and rv[1] in ("adt:std::result::Result::Ok", "adt:std::option::Option::Some") and "|" not in dst and fn.local_ty(place_local(dst)) in tys:
+            out.append(i)
+    return sorted(set(out))
